@@ -1,6 +1,6 @@
 (* C04 -- the wire format of every message matches the TS 24.501 message tables. *)
 From NV Require Import Lib.Base Codec.Lang Codec.Def Codec.Sem Codec.Total Codec.Dispatch Codec.GenDefs Codec.WF
-  Codec.SpecTable Codec.SpecProofs Codec.SpecDecode Codec.Final Spec.TS24501Tables Gen.GenMsgs Gen.GenTypes.
+  Codec.SpecTable Codec.SpecProofs Codec.SpecDecode Codec.Stmt Codec.StmtProofs Codec.Final Spec.TS24501Tables Gen.GenMsgs Gen.GenTypes.
 From Coq Require Import String.
 Open Scope N_scope.
 
@@ -48,8 +48,23 @@ Example C04_grammar_example :
   end.
 Proof. vm_compute. repeat split. Qed.
 
+(* on the transliterated programs run statement by statement (Codec/Stmt.v) *)
+Theorem C04_decode_equiv_programs : forall g bs, In g all_msgs -> bytes_ok bs ->
+  match exec_dec nas_types g bs with
+  | Ok m => spec_decode (abstract (def_of nas_types g)) bs = Ok (proj_msg (def_of nas_types g) m)
+  | Err => spec_decode (abstract (def_of nas_types g)) bs = Err
+  | _ => False
+  end.
+Proof. exact program_decode_is_table_lookup. Qed.
+
+Theorem C04_format_programs : forall g m, In g all_msgs -> wf_msgb (def_of nas_types g) m = true ->
+  exec_enc nas_types g m = Ok (spec_format (abstract (def_of nas_types g)) m).
+Proof. exact program_format. Qed.
+
 Print Assumptions C04_tables_eq.
 Print Assumptions C04_static_all90.
 Print Assumptions C04_all_defs_ok.
 Print Assumptions C04_format.
 Print Assumptions C04_decode_equiv.
+Print Assumptions C04_decode_equiv_programs.
+Print Assumptions C04_format_programs.
